@@ -383,6 +383,8 @@ pub struct StreamQ {
     pub clock: Rc<std::cell::Cell<u64>>,
     /// the most recent poll found the queue empty and not ended (returned Pending)
     pub armed: bool,
+    /// a producer that always has the next item ready (never Pending, never ends)
+    pub endless: Option<(u32, u32)>,
 }
 
 #[derive(Debug, Default)]
@@ -418,6 +420,13 @@ impl futures_util::Stream for SimStream {
         if let Some(r) = q.items.pop_front() {
             q.progress += 1;
             return Poll::Ready(Some(r));
+        }
+        if let Some((c, id)) = q.endless {
+            q.progress += 1;
+            let seq = q.next_seq;
+            q.next_seq += 1;
+            q.armed = false;
+            return Poll::Ready(Some(Reply::new(Some(Item { c, id, seq })).set_continues(Some(true))));
         }
         if q.ended {
             q.progress += 1;
